@@ -187,7 +187,7 @@ impl Prop for Sticky {
         "sticky"
     }
     fn cases(&self, tier: Tier) -> u64 {
-        tier.pick(500_000, 9_000_000)
+        tier.pick(500_000, 3_000_000)
     }
     fn strategy(&self, tier: Tier) -> BoxedStrategy<Case> {
         let mut shape = HistoryShape::default_for(tier);
